@@ -703,6 +703,26 @@ def match_known(known, pid, ob, failed_descs):
     return None
 
 
+def check_mirrors(scratch, files_by_crate, notes):
+    """`//@ file-mirror: <repo file> :: <text>`: a harness file contains a verbatim COPY of a few lines of the code under
+    verification (a callee used as its own contract where the real function cannot be compiled or called). The copy is only
+    meaningful while the real text is unchanged: every mirrored text (whitespace-normalised) must still occur in the named
+    file of the tree being checked, otherwise the run is UNDECIDED (lost anchor) instead of silently using a stale copy."""
+    norm = lambda t: re.sub(r"\s+", " ", t).strip()
+    for c, files in files_by_crate.items():
+        for f in sorted(files):
+            for line in open(f, encoding="utf-8"):
+                m = re.match(r"^\s*//@\s*file-mirror:\s*(\S+)\s*::\s*(.*)$", line)
+                if not m:
+                    continue
+                path = os.path.join(scratch, m.group(1))
+                if not os.path.exists(path):
+                    raise Undecided(f"lost anchor: mirrored file {m.group(1)} missing")
+                if norm(m.group(2)) not in norm(open(path, encoding="utf-8").read()):
+                    raise Undecided(f"lost anchor: the text mirrored by {os.path.basename(f)} no longer occurs in {m.group(1)}: {m.group(2)[:80]!r}")
+                notes.append(f"mirrored text still present in {m.group(1)}: {m.group(2)[:60]}")
+
+
 # ----------------------------------------------------------------------------------------------
 # main driver
 # ----------------------------------------------------------------------------------------------
@@ -745,6 +765,7 @@ def decide(pid, tier):
                                     if os.path.exists(dp) and dp not in files_by_crate[c]:
                                         files_by_crate[c].add(dp)
                                         todo.append(dp)
+                check_mirrors(scratch, files_by_crate, notes)
                 inject(scratch, crates, files_by_crate, notes, pid)
                 build_s = kani_build(scratch, crates)
                 log(f"[{pid}] kani codegen done in {build_s:.1f}s; running {len(kani_obs)} harnesses, {JOBS} parallel")
